@@ -93,7 +93,7 @@ theorem C06_clear (pre old post : List Nat) (start stop : Nat)
   have := (C06_region pre old [] post start stop hnd (by simp) (by simp)).2
   simpa using this
 
-/-! ## Non-vacuity: concrete evaluations of the model (kernel evaluation, no axioms) -/
+/-! ## Non-vacuity: concrete evaluations of the model (by `decide`) -/
 
 instance : DecidableEq (Except DomErr (List Nat))
   | .ok a, .ok b => if h : a = b then isTrue (by rw [h]) else isFalse (fun e => h (Except.ok.inj e))
@@ -102,27 +102,27 @@ instance : DecidableEq (Except DomErr (List Nat))
   | .error _, .ok _ => isFalse (fun e => by cases e)
 
 -- a move to the front: [1,2,3,4] → [4,1,2,3], siblings 10 and 20
-example : reconcile [10, 1, 2, 3, 4, 20] [1, 2, 3, 4] [4, 1, 2, 3] = .ok [10, 4, 1, 2, 3, 20] := by decide +kernel
+example : reconcile [10, 1, 2, 3, 4, 20] [1, 2, 3, 4] [4, 1, 2, 3] = .ok [10, 4, 1, 2, 3, 20] := by decide
 -- swap of the two ends
-example : reconcile [10, 1, 2, 3, 4, 20] [1, 2, 3, 4] [4, 2, 3, 1] = .ok [10, 4, 2, 3, 1, 20] := by decide +kernel
+example : reconcile [10, 1, 2, 3, 4, 20] [1, 2, 3, 4] [4, 2, 3, 1] = .ok [10, 4, 2, 3, 1, 20] := by decide
 -- swap of two adjacent nodes, nothing after them
-example : reconcile [1, 2] [1, 2] [2, 1] = .ok [2, 1] := by decide +kernel
+example : reconcile [1, 2] [1, 2] [2, 1] = .ok [2, 1] := by decide
 -- insertion of new nodes in the middle
-example : reconcile [10, 1, 2, 20] [1, 2] [1, 7, 8, 2] = .ok [10, 1, 7, 8, 2, 20] := by decide +kernel
+example : reconcile [10, 1, 2, 20] [1, 2] [1, 7, 8, 2] = .ok [10, 1, 7, 8, 2, 20] := by decide
 -- reversal (swap branch repeatedly)
-example : reconcile [1, 2, 3, 4, 5] [1, 2, 3, 4, 5] [5, 4, 3, 2, 1] = .ok [5, 4, 3, 2, 1] := by decide +kernel
+example : reconcile [1, 2, 3, 4, 5] [1, 2, 3, 4, 5] [5, 4, 3, 2, 1] = .ok [5, 4, 3, 2, 1] := by decide
 -- map fallback: insert-run, replaceChild, skip and remove all occur
 example : reconcile [10, 1, 2, 3, 4, 5, 20] [1, 2, 3, 4, 5] [3, 7, 1, 5, 2]
-    = .ok [10, 3, 7, 1, 5, 2, 20] := by decide +kernel
+    = .ok [10, 3, 7, 1, 5, 2, 20] := by decide
 -- map fallback with different last elements
-example : reconcile [1, 2, 3, 4] [1, 2, 3, 4] [3, 1, 9] = .ok [3, 1, 9] := by decide +kernel
+example : reconcile [1, 2, 3, 4] [1, 2, 3, 4] [3, 1, 9] = .ok [3, 1, 9] := by decide
 -- removal of everything but the end marker (99)
-example : reconcile [10, 50, 1, 2, 3, 99, 20] [1, 2, 3, 99] [99] = .ok [10, 50, 99, 20] := by decide +kernel
+example : reconcile [10, 50, 1, 2, 3, 99, 20] [1, 2, 3, 99] [99] = .ok [10, 50, 99, 20] := by decide
 -- the empty `a` is rejected (Rust: `debug_assert!(!a.is_empty())`, then `a[a_end - 1]` panics)
-example : reconcile [10, 20] [] [1] = .error .index := by decide +kernel
+example : reconcile [10, 20] [] [1] = .error .index := by decide
 -- the hypothesis "new nodes are not siblings" matters: stealing the sibling 10 changes `pre`
-example : reconcile [10, 1, 20] [1] [1, 10] = .ok [1, 10, 20] := by decide +kernel
+example : reconcile [10, 1, 20] [1] [1, 10] = .ok [1, 10, 20] := by decide
 -- `nodesBetween`
-example : nodesBetween [10, 50, 1, 2, 3, 99, 20] 50 99 = [1, 2, 3] := by decide +kernel
+example : nodesBetween [10, 50, 1, 2, 3, 99, 20] 50 99 = [1, 2, 3] := by decide
 
 end SycVerif.Reconcile
